@@ -30,7 +30,7 @@ FULLY_SWEPT = [
     # a deferred message on both channels is read back at the next start, where every call (the stat()s of the start-up scan among them) fails
     # once; then the clock passes the 123 s system-failure retry and the retry times (added after seeded change C04-I)
     dict(fx([{"sender": "s@rem.example", "rcpts": ["joe@loc.example", "r@rem.example"], "body": "x\n"}], {"0:0": "ZZK", "0:1": "ZZK"},
-            [], ["answer", "inject", "advance", "term"]), plan=["inject", "answer", "answer", "term", "advance_part:130", "advance_part:300"]),
+            [], ["answer", "inject", "advance", "term"]), plan=["inject", "answer", "answer", "term", "advance_due", "advance_due", "advance_due"]),
 ]
 
 
